@@ -173,23 +173,37 @@ async fn waitset(ctx: Ctx, variant: usize) {
     // changed by then); 2: waiter attaches two conditions (reader + writer's PublicationMatched, never raised)
     let initial: &[StatusKind] = if variant == 1 { &[StatusKind::SampleLost] } else { &[StatusKind::DataAvailable] };
     cond.set_enabled_statuses(initial).await.expect("set_enabled_statuses");
-    let mut ws = WaitSetAsync::new();
-    ws.attach_condition(ConditionAsync::StatusCondition(cond.clone())).await.expect("attach");
-    if variant == 2 {
-        let wc = w.get_statuscondition();
-        let _ = w.get_publication_matched_status().await;
-        wc.set_enabled_statuses(&[StatusKind::OfferedDeadlineMissed]).await.expect("wc");
-        ws.attach_condition(ConditionAsync::StatusCondition(wc)).await.expect("attach2");
+    // variants 3-5 (added after seeded change C32-1, which dropped the notification senders of earlier waiters):
+    // 3: two wait sets on the same condition, two concurrent waiters; 4: waiter A on {reader, writer} conditions and
+    // waiter B on {reader}; 5: one wait set that waits, is woken, reads, and waits again for a second sample
+    let mut sets: Vec<WaitSetAsync> = vec![];
+    let nsets = if variant == 3 || variant == 4 { 2 } else { 1 };
+    for k in 0..nsets {
+        let mut ws = WaitSetAsync::new();
+        ws.attach_condition(ConditionAsync::StatusCondition(cond.clone())).await.expect("attach");
+        if variant == 2 || (variant == 4 && k == 0) {
+            let wc = w.get_statuscondition();
+            let _ = w.get_publication_matched_status().await;
+            wc.set_enabled_statuses(&[StatusKind::OfferedDeadlineMissed]).await.expect("wc");
+            ws.attach_condition(ConditionAsync::StatusCondition(wc)).await.expect("attach2");
+        }
+        sets.push(ws);
     }
-    let result: Rc<RefCell<Option<(i64, Result<usize, String>)>>> = Rc::new(RefCell::new(None));
+    let results: Vec<Rc<RefCell<Option<(i64, Result<usize, String>)>>>> = (0..nsets).map(|_| Rc::new(RefCell::new(None))).collect();
     let raised_at: Rc<RefCell<Option<i64>>> = Rc::new(RefCell::new(None));
+    let second: Rc<RefCell<Option<Result<usize, String>>>> = Rc::new(RefCell::new(None));
     ctx.set_sched_window(true);
-    // waiter
-    {
-        let (res, ctx2) = (result.clone(), ctx.clone());
+    // waiters
+    for (k, ws) in sets.into_iter().enumerate() {
+        let (res, ctx2, r2, sec) = (results[k].clone(), ctx.clone(), r.clone(), second.clone());
         ctx.spawn(async move {
-            let r = ws.wait().await;
-            *res.borrow_mut() = Some((ctx2.now(), r.map(|v| v.len()).map_err(|e| format!("{e:?}"))));
+            let x = ws.wait().await;
+            *res.borrow_mut() = Some((ctx2.now(), x.map(|v| v.len()).map_err(|e| format!("{e:?}"))));
+            if variant == 5 {
+                let _ = take_all(&r2).await;
+                let y = ws.wait().await;
+                *sec.borrow_mut() = Some(y.map(|v| v.len()).map_err(|e| format!("{e:?}")));
+            }
         });
     }
     // raiser
@@ -213,8 +227,9 @@ async fn waitset(ctx: Ctx, variant: usize) {
     ctx.sleep_ms(400).await;
     // at this point: data was written and delivered, DataAvailable is enabled, nobody read the data:
     // the trigger value must be true and the waiter must have been woken with a non-empty list
-    let trig = cond.get_trigger_value().await.unwrap_or(false);
-    let have_data = !read_all(&r).await.is_empty();
+    // (variant 5: the waiter itself takes the sample after it is woken, so neither holds at this point)
+    let trig = variant == 5 || cond.get_trigger_value().await.unwrap_or(false);
+    let have_data = variant == 5 || !read_all(&r).await.is_empty();
     if !have_data {
         ctx.violation("setup/no-data", "the written sample never arrived");
         return;
@@ -223,17 +238,35 @@ async fn waitset(ctx: Ctx, variant: usize) {
     if !trig {
         ctx.violation(format!("trigger-false/variant{variant}"), "enabled status changed and not yet read, but get_trigger_value is false");
     }
-    match result.borrow().clone() {
-        None => ctx.violation(format!("wait-never-woke/variant{variant}"), "an attached condition has been true for 400 ms but wait() is still pending"),
-        Some((_, Ok(0))) => ctx.violation(format!("wait-returned-empty/variant{variant}"), "wait() returned Ok with an empty condition list"),
-        Some((_, Ok(_))) => {}
-        Some((_, Err(e))) => ctx.violation(format!("wait-error/variant{variant}/{e}"), "wait() failed"),
+    for (k, result) in results.iter().enumerate() {
+        let who = if nsets > 1 { format!("/waiter{k}") } else { String::new() };
+        match result.borrow().clone() {
+            None => ctx.violation(format!("wait-never-woke/variant{variant}{who}"), "an attached condition has been true for 400 ms but wait() is still pending"),
+            Some((_, Ok(0))) => ctx.violation(format!("wait-returned-empty/variant{variant}{who}"), "wait() returned Ok with an empty condition list"),
+            Some((_, Ok(_))) => {}
+            Some((_, Err(e))) => ctx.violation(format!("wait-error/variant{variant}{who}/{e}"), "wait() failed"),
+        }
+    }
+    if variant == 5 {
+        // second round: the first sample was taken by the waiter; a new sample must wake the second wait()
+        if second.borrow().is_some() {
+            ctx.violation("second-wait-returned-without-new-data/variant5", format!("the second wait() returned {:?} although the data had been taken and nothing new was written", second.borrow()));
+            return;
+        }
+        w.write(sample(1, 1, 8), None).await.expect("write2");
+        ctx.sleep_ms(400).await;
+        match second.borrow().clone() {
+            None => ctx.violation("second-wait-never-woke/variant5", "a new sample arrived 400 ms ago but the second wait() on the same wait set is still pending"),
+            Some(Ok(0)) => ctx.violation("second-wait-returned-empty/variant5", "empty condition list"),
+            Some(Ok(_)) => {}
+            Some(Err(e)) => ctx.violation(format!("second-wait-error/variant5/{e}"), "wait() failed"),
+        }
     }
 }
 
 pub fn c32(args: &Args) -> Vec<Scenario> {
     let b = if args.thorough() { 4 } else { 3 };
-    (0..3).map(|k| Scenario::new(format!("C32.waitset[variant={k}]"), b, move |ctx| waitset(ctx, k)).cfg(|c| c.horizon_ms = 20_000)).collect()
+    (0..6).map(|k| Scenario::new(format!("C32.waitset[variant={k}]"), b, move |ctx| waitset(ctx, k)).cfg(|c| c.horizon_ms = 20_000)).collect()
 }
 
 // ---------------------------------------------------------------------------------------------------------------
